@@ -174,6 +174,35 @@ func TestC10Timed(t *testing.T) {
 	}, propC10Timed)
 }
 
+// TestC10Large: buffers far larger than anything the random histories fill. For each maxInFlight n just above
+// a power of two: n+3 events that never complete are pushed in ascending order and (second history) in an
+// order that keeps inserting below the newest, then Close. The clauses are the ones of TestC10 (nothing is
+// delivered without cause before the buffer holds more than n events; afterwards exactly the surplus goes).
+func TestC10Large(t *testing.T) {
+	sizes := []int{1025, 2049}
+	if hx.Thorough() {
+		sizes = append(sizes, 4097, 8193)
+	}
+	for _, n := range sizes {
+		for variant := 0; variant < 2; variant++ {
+			h := History{MaxInFlight: n, TimeoutNs: int64(time.Hour), Windowed: true, Base: 1 << 20}
+			for i := 0; i < n+3; i++ {
+				off := uint32(i)
+				if variant == 1 && i%2 == 1 {
+					off = uint32(n + 3 + (n+3-i)) // odd pushes come from above, descending: they land in the middle of the list
+				}
+				h.Ops = append(h.Ops, Op{K: opPush, Seq: h.Base + off, Typ: 1300})
+			}
+			h.Ops = append(h.Ops, Op{K: opMaintain}, Op{K: opClose})
+			hC10.Eval()
+			if err := hx.Guard(propC10, h); err != nil {
+				hC10.Fail(t, "TestC10", h, "maxInFlight %d, %d pushes of lone SYSCALL records (variant %d), Maintain, Close: %v", n, n+3, variant, err)
+			}
+			hC10.Class("large-buffer-history")
+		}
+	}
+}
+
 func TestC10Regress(t *testing.T) { hx.Regress(t, hC10, "TestC10", propC10) }
 
 func TestC10(t *testing.T) {
